@@ -852,6 +852,49 @@ pub fn run(cfg: &Cfg) -> Report {
     rep.hit(&format!("policy:{}", POLICIES[policy_ix].2));
     rep.hit(&format!("rules:{}", t.rules.len()));
     rep.hit(&format!("inputs:{} outputs:{}", t.ins.len(), t.outs.len()));
+    // output cells against the oracle on the texts: an output entry that is literally one of the listed output
+    // values is the rule's output (the value of the literal), whatever `Out` is built from
+    {
+      let scope = Scope::default();
+      for (ci, c) in t.outs.iter().enumerate() {
+        let ov = match &c.output_values {
+          Some(ov) => ov,
+          None => continue,
+        };
+        let listed: Vec<&str> = ov.split(',').map(|x| x.trim()).collect();
+        for r in &t.rules {
+          let entry = r.outputs[ci].trim();
+          if entry == "null" || !listed.contains(&entry) {
+            continue;
+          }
+          let shown = guarded(|| {
+            let e = dmntk_feel_parser::parse_expression(&scope, entry, false).ok()?;
+            let n = dmntk_feel_parser::parse_unary_tests(&scope, ov, false).ok()?;
+            let node = AstNode::Out(Box::new(e), Box::new(n));
+            dmntk_feel_evaluator::evaluate(&scope, &node).ok().map(|v| v.to_string())
+          });
+          let want = guarded(|| eval_text(&scope, entry).map(|v| v.to_string()));
+          rep.hit("output-cell oracle");
+          if let (Ok(Some(w)), got) = (&want, &shown) {
+            let g = match got {
+              Ok(Some(g)) => g.clone(),
+              Ok(None) => "error".to_string(),
+              Err(p) => format!("panic {}", p),
+            };
+            if &g != w {
+              rep.disagree(
+                Kind::ImplVsSpec,
+                "output-cell",
+                "an output entry listed among the output values is not the output of its rule",
+                &format!("output entry `{}` against the output values `{}`", entry, ov),
+                &g,
+                w,
+              );
+            }
+          }
+        }
+      }
+    }
     for _ in 0..tuples_per_table {
       let tuple = input_tuple(&t, &wits, &mut rng);
       let (sent, seen, input_text) = context_of(&t, &tuple);
